@@ -34,8 +34,8 @@ TEXT = {
 TEXT.update({
     "C02": ("the clauses reachable without trigonometry: argument validation and result hand-over of latLngToCell for every double bit pattern and every int resolution (E_RES_DOMAIN / E_LATLNG_DOMAIN, no index written, geometry never reached on rejected input), and the planar rounding kernel _hex2dToCoordIJK: on stated grid windows the chosen hexagon contains the point (three-axis test) and cell centres round to their cell; lattice->index is C01/C03.",
             "containment against the cellToBoundary oracle, the angular tolerance, poles/antimeridian and 'always succeeds' are NOT decided (closest face + gnomonic projection are libm trig: no bit-precise model in any installed engine)."),
-    "C06": ("lossless round trip compact->uncompact and exact sizes for every set of 3 (thorough 5) distinct valid cells in every order at several resolutions; uncompactCells capacity clause (never writes beyond the capacity, E_MEMORY_BOUNDS / E_RES_MISMATCH) for every pair of cells, every capacity 0-14; complete child families of an arbitrary parent compacting to the parent (thorough, memory class X, reported undecided when it does not fit).",
-            "fully symbolic sets of >= 6 cells and multi-round compaction are outside (hash-probe arithmetic over symbolic array indexes is SAT-hard, probed); own loop models of memcpy/memset."),
+    "C06": ("lossless round trip compact->uncompact and exact sizes for every set of 3 (thorough 5) distinct valid cells in every order at several resolutions; uncompactCells capacity clause (never writes beyond the capacity, E_MEMORY_BOUNDS / E_RES_MISMATCH) for every pair of cells, every capacity 0-14.",
+            "NOT decided: any set that actually compacts (>= 6 cells) - the hash-probe arithmetic over symbolic array indexes exhausted 30 GB even for one complete family of a symbolic parent; multi-round compaction. Own loop models of memcpy/memset."),
     "C08": ("the lattice / count / unit clauses: cellAreaKm2 = Rads2*R^2 and cellAreaM2 = Km2*10^6 bit-exactly with error propagation (glue); vertex counts of cellToBoundary (6, up to 8 at odd res; 5/10 for pentagons; never more than 10 written) with the projection stubbed, res 0-1; shared-corner lattice identity across an edge, res 0-1 (thorough).",
             "every statement about lat/lng values - orientation, 1e-12 coincidence across face projections, cellAreaRads2, the 4*pi sum - is NOT decided (trig; symbolic FP division in _v2dIntersect)."),
     "C12": ("one query per exported integer API on arbitrary 64-bit words / ints / int64 (invalid digits, modes, base cells 122-127 included), library built WITHOUT NDEBUG so every NEVER/ALWAYS/assert is a proof obligation, CBMC bounds / pointer / overflow / shift / conversion / division checks on, output buffers malloc'ed at exactly the documented size; documented domain codes asserted.",
